@@ -514,6 +514,103 @@ def check_wellformed(prog) -> list[str]:
     return bad
 
 
+def typecheck(prog) -> list[str]:
+    """Re-derive every node's output types from its inputs and attributes by the vocabulary's typing
+    rules (independent of how the generator chose them) and compare with the recorded types.  Used as
+    generator self-check and to keep the shrinker inside the well-typed programs."""
+    nodes = prog["nodes"]
+    bad: list[str] = []
+
+    def T(r):
+        return nodes[r[0]]["ty"][r[1]]
+
+    def const_of(r):
+        n = nodes[r[0]]
+        return n["attrs"].get("value") if n["op"] == "Constant" else None
+
+    for k, n in enumerate(nodes):
+        op, ins, out = n["op"], n["ins"], n["ty"]
+        err = None
+        try:
+            if op in ("arg",):
+                ok = len(out) == 1 and not ins
+            elif op in ("init", "Constant"):
+                cnt = int(np.prod(out[0][1])) if out[0][1] else 1
+                ok = not ins and concrete(out[0]) and not out[0][2] and len(n["attrs"]["value"]) == cnt
+            elif op in ("Add", "Mul", "Less"):
+                a, b = T(ins[0]), T(ins[1])
+                sh = bshape(a, b)
+                ok = a[0] == b[0] and a[0] in NUMERIC and sh is not None and same_ty(
+                    out[0], ty("bool" if op == "Less" else a[0], sh[0], sh[1]))
+            elif op in ("Neg", "Abs"):
+                ok = T(ins[0])[0] in NUMERIC and same_ty(out[0], T(ins[0]))
+            elif op == "Identity":
+                ok = same_ty(out[0], T(ins[0]))
+            elif op == "Not":
+                ok = T(ins[0])[0] == "bool" and same_ty(out[0], T(ins[0]))
+            elif op == "Cast":
+                a = T(ins[0])
+                ok = n["attrs"]["to"] in DT and same_ty(out[0], ty(n["attrs"]["to"], a[1], a[2]))
+            elif op == "Where":
+                c, x, y = T(ins[0]), T(ins[1]), T(ins[2])
+                ok = (c[0] == "bool" and not c[2] and c[1] in (x[1], []) and same_ty(x, y) and x[0] in NUMERIC
+                      and not x[2] and concrete(x) and len(x[1]) == 1 and same_ty(out[0], x))
+            elif op == "Concat":
+                ts = [T(r) for r in ins]
+                ok = (len(ts) >= 1 and all(t[0] == ts[0][0] and not t[2] and concrete(t) and len(t[1]) == 1 for t in ts)
+                      and same_ty(out[0], ty(ts[0][0], [sum(t[1][0] for t in ts)])))
+            elif op == "Clip":
+                x = T(ins[0])
+                ok = x[0] in NUMERIC and not x[2] and same_ty(out[0], x) and all(
+                    r is None or same_ty(T(r), ty(x[0], [])) for r in ins[1:3]) and len(ins) == 3
+            elif op == "ReduceSum":
+                x = T(ins[0])
+                ok = x[0] in NUMERIC and not x[2] and len(x[1]) >= 1 and ins[1] is None and same_ty(out[0], ty(x[0], []))
+            elif op == "Split":
+                x = T(ins[0])
+                sizes = [t[1][0] for t in out]
+                ok = (not x[2] and concrete(x) and len(x[1]) == 1 and sum(sizes) == x[1][0] and len(sizes) == n["attrs"]["outputs"]
+                      and all(same_ty(t, ty(x[0], [z])) for t, z in zip(out, sizes))
+                      and ((ins[1] is None and len(set(sizes)) == 1) or (ins[1] is not None and const_of(ins[1]) == sizes)))
+            elif op == "TopK":
+                x = T(ins[0])
+                kv = const_of(ins[1])
+                ok = (x[0] in NUMERIC and not x[2] and concrete(x) and len(x[1]) == 1 and kv is not None and len(kv) == 1
+                      and 1 <= kv[0] <= x[1][0] and same_ty(out[0], ty(x[0], [kv[0]])) and same_ty(out[1], ty("i64", [kv[0]])))
+            elif op == "If":
+                ok = same_ty(T(ins[0]), ty("bool", [])) and len(n["subs"]) == 2 and all(
+                    not s["args"] and len(s["res"]) == len(out) and all(same_ty(T(r), t) and concrete(t) for r, t in zip(s["res"], out))
+                    for s in n["subs"])
+            elif op == "Loop":
+                body = n["subs"][0]
+                states = [T(r) for r in ins[2:]]
+                ns = len(states)
+                ok = (ins[0] is None or same_ty(T(ins[0]), ty("i64", []))) and (ins[1] is None or same_ty(T(ins[1]), ty("bool", [1])))
+                ok = ok and all(not t[2] and concrete(t) for t in states)
+                fts = [nodes[a]["ty"][0] for a in body["args"]]
+                ok = ok and len(fts) == 2 + ns and same_ty(fts[0], ty("i64", [], True)) and same_ty(fts[1], ty("bool", [], True))
+                ok = ok and all(same_ty(f, t) for f, t in zip(fts[2:], states))
+                rts = [T(r) for r in body["res"]]
+                ok = ok and len(rts) >= 1 + ns and rts[0][0] == "bool" and rts[0][1] == []
+                ok = ok and all(same_ty(r, t) for r, t in zip(rts[1:1 + ns], states))
+                scans = rts[1 + ns:]
+                ok = ok and all(not t[2] and concrete(t) and len(t[1]) <= 1 for t in scans)
+                ok = ok and len(out) == ns + len(scans) and all(same_ty(o, t) for o, t in zip(out, states))
+                ok = ok and all(same_ty(o, ty(t[0], [None] + t[1])) for o, t in zip(out[ns:], scans))
+                ok = ok and (ins[0] is not None or nodes[body["res"][0][0]]["op"] == "Less")
+            else:
+                ok = False
+        except Exception as e:  # noqa: BLE001
+            ok, err = False, f"{type(e).__name__}: {e}"
+        if not ok:
+            bad.append(f"node {k} ({op}) is ill-typed" + (f" [{err}]" if err else ""))
+    for r in prog["outputs"]:
+        t = T(r)
+        if t[2]:
+            bad.append(f"output {r} has a loose type")
+    return bad
+
+
 # ------------------------------------------------------------------------- numpy specification
 def np_const(node) -> np.ndarray:
     t = node["ty"][0]
@@ -1276,7 +1373,8 @@ def _substitute(prog, k: int, i: int, new) -> dict:
         return list(new) if r is not None and r[0] == k and r[1] == i else r
 
     for n in p["nodes"]:
-        n["ins"] = [sub(r) for r in n["ins"]]
+        fixed = 1 if n["op"] in ("Split", "TopK") else None  # sizes / K must stay the constant
+        n["ins"] = [r if j == fixed else sub(r) for j, r in enumerate(n["ins"])]
         for s in n["subs"]:
             s["res"] = [sub(r) for r in s["res"]]
     p["outputs"] = [sub(r) for r in p["outputs"]]
